@@ -138,6 +138,9 @@ func (rn *runner) GenOp(r *vh.Rand, i int) string {
 		rn.confirmed[ep] = true
 		return fmt.Sprintf("confirm %d", ep)
 	}
+	if r.Chance(3) {
+		return fmt.Sprintf("secrets %d", ep)
+	}
 	switch r.Pick(34, 34, 14, 6, 2, 3, 3, 4) {
 	case 0: // seal (KeyPhase + Seal, as the packer does)
 		rn.nextPN[ep] += 1
@@ -279,7 +282,7 @@ func (rn *runner) Exec(op string) string {
 		m := msgFor(id)
 		sealed := u.Seal(m, protocol.PacketNumber(pn), ad(bit, pn))
 		rn.pkts[id] = &pkt{from: ep, pn: pn, kpbit: bit, sealed: sealed, msg: m}
-		return fmt.Sprintf("bit=%d gen=%d len=%d %s", bit, gen, len(sealed)-len(m), u.State())
+		return fmt.Sprintf("bit=%d gen=%d len=%d ct=%x %s", bit, gen, len(sealed)-len(m), sealed, u.State())
 	case "forge":
 		id, g, pn := int(n(2)), int(n(3)), n(4)
 		if g < 0 || g > 1000 {
@@ -331,6 +334,9 @@ func (rn *runner) Exec(op string) string {
 		k := uint64(n(2))
 		u.SetInvalidPacketCount(u.InvalidPacketLimit() - k)
 		return "ok " + u.State()
+	case "secrets":
+		rcv, send := u.NextSecrets()
+		return fmt.Sprintf("gen=%d nrcv=%x nsend=%x", u.GenerationPhase()+1, rcv, send)
 	case "dec":
 		return fmt.Sprintf("%d", int64(u.DecodePacketNumber(protocol.PacketNumber(n(3)), protocol.PacketNumberLen(n(2)))))
 	}
